@@ -35,6 +35,8 @@ pub struct Acc {
     pub violation_count: u64,
     pub sig_hits: BTreeMap<String, u64>,
     pub inconclusive: Vec<String>,
+    /// extra coverage entries produced by auxiliary stages
+    pub notes: Vec<(String, J)>,
     pub max_samples: usize,
     pub max_violations: usize,
 }
@@ -145,6 +147,7 @@ impl Acc {
         for w in other.inconclusive {
             self.inconclusive(w);
         }
+        self.notes.extend(other.notes);
     }
 
     pub fn counters_json(&self) -> J {
